@@ -232,6 +232,13 @@ func (fdef *reflectByField) elem() reflect.Value {
 }
 
 func (fdef *reflectByField) clear() error {
+	if fdef.f.Name == "" {
+		// no field, the value is reached by methods: FieldByIndex of no index is the struct itself
+		if fdef.setter.Name != "" && fdef.setter.Type.NumIn() == 2 {
+			return fdef.set(reflect.Zero(fdef.setter.Type.In(1)))
+		}
+		return fmt.Errorf("%s has no recognized way to clear value", fdef.m.Ident())
+	}
 	fdef.elem().FieldByIndex(fdef.f.Index).SetZero()
 	return nil
 }
